@@ -116,6 +116,31 @@ def ro_check(kind, setup, ops, scratch):
                 return ("ro-unchanged", "%s: reading through the view changed the underlying store" % where), vs, us
             vs.append(res + ";" + vt)
             us.append(ut)
+        # the view is LIVE: the owner changes the underlying store directly (the same operations), the view reads what the store reads
+        for i, op in enumerate(ops):
+            L.apply_op(u, K, op)
+            vk, vo = L.observe(view, K, unK, OBS)
+            uk, uo = L.observe(u, K, unK, OBS)
+            vt, ut = L.state_text(vk, vo), L.state_text(uk, uo)
+            if vt != ut:
+                dd = L.first_difference(["", "x;" + vt], ["", "x;" + ut], OBS, [op])
+                return ("ro-live", "set-up [%s], %d reads through read_only(), then DIRECTLY on the underlying store: [%s]: the view reads %s, "
+                        "the underlying store %s" % (L.show_hist(setup), len(ops), L.show_hist(ops[:i + 1]), dd[0], dd[1])), vs, us
+        # mounting through the view: the composite it hands out must not open a way around the view
+        import liquer.store as S
+        raw0, keys0 = L.raw_snapshot(u), sorted(u.keys())
+        try:
+            comp = view.mount("zz-mounted", S.MemoryStore())
+        except Exception:
+            comp = None
+        if (L.raw_snapshot(u), sorted(u.keys())) != (raw0, keys0):
+            return ("ro-mount", "set-up [%s]: read_only().mount('zz-mounted', MemoryStore()) changed the underlying store" % L.show_hist(setup)), vs, us
+        if comp is not None:
+            for i, op in enumerate(ops):
+                res = L.apply_op(comp, K, op)
+                if (L.raw_snapshot(u), sorted(u.keys())) != (raw0, keys0):
+                    return ("ro-mount", "set-up [%s]: c = read_only().mount('zz-mounted', MemoryStore()); c: %s (result %s) changed the store "
+                            "underneath the read-only view" % (L.show_hist(setup), L.show(op), res)), vs, us
         # openbin through the view: writing modes are refused, reading gives the same bytes
         for k in OBS[1:]:
             for mode in ("w", "wb", "a", "r+b"):
